@@ -34,7 +34,7 @@ static real * prepare_poly_fir_coefs(double const * coefs, int num_coefs,
 {
   int i, j, length = num_coefs4 * num_phases * (interp_order + 1);
   real * result = mem->calloc(1,(size_t)length << LOG2_SIZEOF_REAL(core_flags));
-  double fm1 = coefs[0], f1 = 0, f2 = 0;
+  double fm1 = coefs[0] * multiplier, f1 = 0, f2 = 0;
 
   for (i = num_coefs - 1; i >= 0; --i)
     for (j = num_phases - 1; j >= 0; --j) {
